@@ -1,7 +1,7 @@
 //! C01 generator: multi-contract worlds (call graphs of up to 6 contracts assembled from instruction templates) and
 //! transactions of all five types on every SpecId Frontier … Prague, with boundary gas limits.
 use crate::c01::*;
-use crate::c01bnd::{compile, floor_points, sstore_plan, End, It, Kind, Script};
+use crate::c01bnd::{compile, floor_points, sstore_plan, window_script, End, It, Kind, Script};
 use crate::*;
 use revm::interpreter::gas::calculate_initial_tx_gas;
 use revm::primitives::{AccessListItem, Address, SpecId, B256, U256};
@@ -640,7 +640,7 @@ fn xf_body(rng: &mut Rng, level: usize, sc: &mut Script, theme: u64, out: &mut O
 
 /// replaces contract 0 (and its twin, contract 1) by a random frame script; returns the tag of the theme
 fn xframe_world(rng: &mut Rng, c: &mut Case, out: &mut Out) {
-    let theme = rng.below(7);
+    let theme = rng.below(8);
     let mut sc = Script { bodies: vec![], quiet: rng.chance(1, 3) };
     let mut st: Vec<(U256, U256)> =
         (0..2u64).filter_map(|k| { let v = *rng.pick(&XV); if v == 0 { None } else { Some((U256::from(k), U256::from(v))) } }).collect();
@@ -657,6 +657,26 @@ fn xframe_world(rng: &mut Rng, c: &mut Case, out: &mut Out) {
         sc = sstore_plan(*rng.pick(&kinds), *rng.pick(&kinds), &pos, &vals, *rng.pick(&ends), *rng.pick(&ends), rng.below(5));
         st = if orig == 0 { vec![] } else { vec![(U256::ZERO, U256::from(orig))] };
         out.count("xframe-sstore-lock-pattern");
+    } else if theme == 7 {
+        // output window of a call: random window, random amount returned / reverted, sometimes a RETURNDATACOPY after
+        let kind = *rng.pick(&[Kind::CallSelf, Kind::Delegate, Kind::CallCode, Kind::CallOther, Kind::Static]);
+        let out_len = *rng.pick(&[0u64, 1, 31, 32, 33, 64, 96]);
+        let ret = match rng.below(5) {
+            0 => 0,
+            1 => out_len.saturating_sub(1),
+            2 => out_len,
+            3 => out_len + 1,
+            _ => rng.below(97),
+        }
+        .min(96);
+        let callee = match rng.below(8) {
+            0..=3 => End::ReturnN(ret),
+            4..=5 => End::RevertN(ret),
+            6 => End::Stop,
+            _ => End::Invalid,
+        };
+        let copy = if rng.chance(1, 3) { Some((0x100 + rng.below(0x60), rng.below(3).min(ret), if rng.chance(1, 8) { 1 } else { 0 })) } else { None };
+        sc = window_script(kind, 0x100 + rng.below(0x41), out_len, callee, SpecId::enabled(c.spec, SpecId::BYZANTIUM), copy);
     } else {
         xf_body(rng, 0, &mut sc, theme, out);
     }
@@ -669,7 +689,7 @@ fn xframe_world(rng: &mut Rng, c: &mut Case, out: &mut Out) {
     }
     out.count(&format!(
         "xframe-theme-{}",
-        ["sstore-refund", "sstore-refund", "logs", "transient", "warmth", "value", "create"][theme as usize]
+        ["sstore-refund", "sstore-refund", "logs", "transient", "warmth", "value", "create", "return-window"][theme as usize]
     ));
     out.count(&format!("xframe-frames-{}", sc.bodies.len()));
     for (i, b) in sc.bodies.iter().enumerate() {
